@@ -1,0 +1,45 @@
+"""Guarded recorder for external verification tooling.
+
+A constant-time no-op unless the environment variable ``AGILERL_VERIF`` is set to ``1`` *before*
+``agilerl`` is imported.  When enabled, :func:`record` appends ``(tag, {name: copy})`` to the
+module-level list :data:`RECORDS`; tensors are stored as detached CPU clones and numpy arrays as
+copies, so that nothing recorded aliases live training state.  Call sites guard themselves with
+``if verif_hooks.ENABLED:`` so that no argument is even evaluated when the recorder is off.
+"""
+
+import os
+from typing import Any, List, Tuple
+
+ENABLED = os.environ.get("AGILERL_VERIF") == "1"
+
+RECORDS: List[Tuple[str, dict]] = []
+
+
+def _copy(value: Any) -> Any:
+    """Detached CPU clone of tensors, copy of arrays, recursively through dict/tuple/list."""
+    import numpy as np
+    import torch
+
+    if isinstance(value, torch.Tensor):
+        return value.detach().cpu().clone()
+    if isinstance(value, np.ndarray):
+        return value.copy()
+    if isinstance(value, dict):
+        return {key: _copy(val) for key, val in value.items()}
+    if isinstance(value, tuple):
+        return tuple(_copy(val) for val in value)
+    if isinstance(value, list):
+        return [_copy(val) for val in value]
+    return value
+
+
+def record(tag: str, **arrays: Any) -> None:
+    """Append a snapshot of ``arrays`` under ``tag`` to :data:`RECORDS` (no-op unless enabled)."""
+    if not ENABLED:
+        return
+    RECORDS.append((tag, {name: _copy(value) for name, value in arrays.items()}))
+
+
+def clear() -> None:
+    """Forget everything recorded so far."""
+    del RECORDS[:]
